@@ -349,7 +349,7 @@ func ColumnValues(p *core.Program, v ssa.Value) ([]Val, bool) {
 	var steps []step
 	cur := v
 	var root *ssa.Global
-	for d := 0; d < 12 && root == nil; d++ {
+	for d := 0; d < 14 && root == nil; d++ {
 		switch x := cur.(type) {
 		case *ssa.UnOp:
 			if x.Op != token.MUL {
@@ -377,6 +377,23 @@ func ColumnValues(p *core.Program, v ssa.Value) ([]Val, bool) {
 			cur = x.X
 		case *ssa.ChangeType:
 			cur = x.X
+		case *ssa.Alloc:
+			// a local copy of a row: the unique whole-value store into it
+			var val ssa.Value
+			n := 0
+			if x.Referrers() == nil {
+				return nil, false
+			}
+			for _, ref := range *x.Referrers() {
+				if st, ok := ref.(*ssa.Store); ok && st.Addr == ssa.Value(x) {
+					n++
+					val = st.Val
+				}
+			}
+			if n != 1 {
+				return nil, false
+			}
+			cur = val
 		case *ssa.Global:
 			root = x
 		default:
@@ -429,4 +446,125 @@ func ssaConstInt(v ssa.Value) (int64, bool) {
 	}
 	k, ok := constant.Int64Val(c.Value)
 	return k, ok
+}
+
+// RowColumn: v reads a scalar place inside a closed package-level table through
+// exactly one variable index (the row): `table[i].field`, also through a local copy
+// of the row (`row := table[i]; row.field`).  Returns the index value and the value
+// of that place for every row, in row order.
+func RowColumn(p *core.Program, v ssa.Value) (ssa.Value, []Val, bool) {
+	type step struct {
+		kind  byte
+		idx   int
+		known bool
+		iv    ssa.Value
+	}
+	var steps []step
+	cur := v
+	var root *ssa.Global
+	for d := 0; d < 14 && root == nil; d++ {
+		switch x := cur.(type) {
+		case *ssa.UnOp:
+			if x.Op != token.MUL {
+				return nil, nil, false
+			}
+			cur = x.X
+		case *ssa.IndexAddr:
+			k, ok := ssaConstInt(x.Index)
+			steps = append(steps, step{'i', int(k), ok, x.Index})
+			cur = x.X
+		case *ssa.Index:
+			k, ok := ssaConstInt(x.Index)
+			steps = append(steps, step{'i', int(k), ok, x.Index})
+			cur = x.X
+		case *ssa.FieldAddr:
+			steps = append(steps, step{'f', x.Field, true, nil})
+			cur = x.X
+		case *ssa.Field:
+			steps = append(steps, step{'f', x.Field, true, nil})
+			cur = x.X
+		case *ssa.Slice:
+			if x.Low != nil || x.High != nil {
+				return nil, nil, false
+			}
+			cur = x.X
+		case *ssa.ChangeType:
+			cur = x.X
+		case *ssa.Alloc:
+			// a local copy of a row: the unique whole-value store into it
+			var val ssa.Value
+			n := 0
+			if x.Referrers() == nil {
+				return nil, nil, false
+			}
+			for _, ref := range *x.Referrers() {
+				if st, ok := ref.(*ssa.Store); ok && st.Addr == ssa.Value(x) {
+					n++
+					val = st.Val
+				}
+			}
+			if n != 1 {
+				return nil, nil, false
+			}
+			cur = val
+		case *ssa.Global:
+			root = x
+		default:
+			return nil, nil, false
+		}
+	}
+	if root == nil {
+		return nil, nil, false
+	}
+	val, err := ClosedValue(p, root.Name())
+	if err != nil {
+		return nil, nil, false
+	}
+	var rowIdx ssa.Value
+	nvar := 0
+	for _, st := range steps {
+		if st.kind == 'i' && !st.known {
+			nvar++
+			rowIdx = st.iv
+		}
+	}
+	if nvar != 1 {
+		return nil, nil, false
+	}
+	// walk from the root; at the variable index fan out into rows
+	cursors := []Val{val}
+	fanned := false
+	for i := len(steps) - 1; i >= 0; i-- {
+		st := steps[i]
+		var next []Val
+		for _, c := range cursors {
+			switch x := c.(type) {
+			case *Slice:
+				if st.kind != 'i' || x == nil {
+					return nil, nil, false
+				}
+				if st.known {
+					if st.idx < 0 || st.idx >= len(x.Elems) {
+						return nil, nil, false
+					}
+					next = append(next, x.Elems[st.idx])
+				} else {
+					if fanned {
+						return nil, nil, false
+					}
+					fanned = true
+					next = append(next, x.Elems...)
+				}
+			case *Struct:
+				if st.kind != 'f' || x == nil || st.idx >= len(x.F) {
+					return nil, nil, false
+				}
+				next = append(next, x.F[st.idx])
+			default:
+				return nil, nil, false
+			}
+		}
+		cursors = next
+	}
+	return rowIdx, cursors, fanned
 }
